@@ -114,6 +114,52 @@ var c12Families = []struct {
 	{"render-props", func(n int) string { return "T | render c with (a=1" + strings.Repeat(", b='x'", n) + ")" }},
 }
 
+// c12Wrappers: one-hole expression contexts; every single wrapper is nested to many
+// depths and every ordered pair is nested alternately (w1(w2(w1(...)))).
+var c12Wrappers = []struct {
+	name string
+	wrap func(x string) string
+}{
+	{"paren", func(x string) string { return "(" + x + ")" }},
+	{"neg", func(x string) string { return "-(" + x + ")" }},
+	{"call", func(x string) string { return "f(" + x + ")" }},
+	{"call2", func(x string) string { return "g(1, " + x + ")" }},
+	{"not", func(x string) string { return "not(" + x + ")" }},
+	{"isnull", func(x string) string { return "isnull(" + x + ")" }},
+	{"tolower", func(x string) string { return "tolower(" + x + ")" }},
+	{"strcat", func(x string) string { return "strcat('p', " + x + ")" }},
+	{"iff-cond", func(x string) string { return "iff(" + x + ", 1, 2)" }},
+	{"iff-then", func(x string) string { return "iff(a, " + x + ", 2)" }},
+	{"index-base", func(x string) string { return "(" + x + ")[1]" }},
+	{"index-key", func(x string) string { return "m[" + x + "]" }},
+	{"call-index", func(x string) string { return "f(" + x + ")['k']" }},
+	{"in-subject", func(x string) string { return "(" + x + ") in (1, 2)" }},
+	{"in-value", func(x string) string { return "a in (1, " + x + ")" }},
+	{"add-left", func(x string) string { return "(" + x + ") + 1" }},
+	{"add-right", func(x string) string { return "1 - (" + x + ")" }},
+	{"eq", func(x string) string { return "(" + x + ") == b" }},
+	{"and", func(x string) string { return "a and (" + x + ")" }},
+	{"ci-eq", func(x string) string { return "(" + x + ") =~ 's'" }},
+}
+
+func nestWrappers(i, j, depth int, base string) string {
+	x := base
+	for d := 0; d < depth; d++ {
+		if d%2 == 0 {
+			x = c12Wrappers[i].wrap(x)
+		} else {
+			x = c12Wrappers[j].wrap(x)
+		}
+	}
+	return x
+}
+
+var c12Positions = []func(e string) string{
+	func(e string) string { return "T | where " + e },
+	func(e string) string { return "let v = " + e + "; T | where v | take 1" },
+	func(e string) string { return "T | join (R) on " + e + " | extend " + e },
+}
+
 func c12Sizes(maxBytes int, unit int) []int {
 	var out []int
 	seen := map[int]bool{}
@@ -175,6 +221,24 @@ func c12Main(r *run.Runner) {
 			cases = append(cases, fc{fi, k})
 		}
 	}
+	// systematic nesting: every wrapper alone at every depth, every ordered pair alternating
+	type nc struct{ i, j, depth, pos int }
+	var nests []nc
+	for i := range c12Wrappers {
+		for d := 1; d <= 48; d++ {
+			nests = append(nests, nc{i, i, d, d % len(c12Positions)})
+		}
+		for _, d := range []int{64, 100, 200} {
+			nests = append(nests, nc{i, i, d, 0})
+		}
+		for j := range c12Wrappers {
+			if i != j {
+				for _, d := range []int{6, 16, 30, 48} {
+					nests = append(nests, nc{i, j, d, (i + j) % len(c12Positions)})
+				}
+			}
+		}
+	}
 	// The families run on two workers with a 30 s limit per call: these inputs are
 	// kilobytes long and some are legitimately quadratic (seconds at 4 KiB).
 	r.MaxWorkers = 2
@@ -193,6 +257,15 @@ func c12Main(r *run.Runner) {
 		}
 		slowMu.Unlock()
 	})
+	r.MaxWorkers = 4
+	r.Sweep("nesting-wrappers", int64(len(nests)), func(w *run.Worker, item int64) {
+		n := nests[item]
+		base := "a"
+		if n.pos == 1 {
+			base = "1" // let values are closed expressions
+		}
+		totalEach(w, c12Positions[n.pos](nestWrappers(n.i, n.j, n.depth, base)))
+	})
 	r.MaxWorkers = 0
 	r.HangLimit.Store(0)
 	r.Extra["slowest_family_case_seconds"] = slowest
@@ -201,7 +274,7 @@ func c12Main(r *run.Runner) {
 		fam = append(fam, f.name)
 	}
 	r.Extra["bounds"] = map[string]any{"bytes36_max_len": n, "bytes36_strings": e.Total(), "token_sequences": b1, "corruptions": b2,
-		"families": fam, "family_cases": len(cases), "family_max_bytes": maxBytes}
+		"families": fam, "family_cases": len(cases), "family_max_bytes": maxBytes, "nesting_wrappers": len(c12Wrappers), "nesting_cases": len(nests)}
 	r.Sample(c12Families[0].make(3))
 	r.Sample(c12Families[5].make(2))
 	r.Sample(c12Families[21].make(3))
